@@ -36,6 +36,8 @@ def writer_field(p):
 
 
 def run_cfg(ctx, p, cfg):
+    from rules import accessors
+    accessors.rule_fidelity(ctx, p, cfg, "R6", prefix="append::file::", floor=2, with_build=False)   # what the builder is told (append or truncate, the encoder) is what it keeps: a setter stores its argument and touches nothing else
     if "config_parsing" in p.meta.get("features", []) and "file_appender" in p.meta.get("features", []):
         from rules import c14
         c14.rule_file_append_default(ctx, p, cfg, "R5", "file")   # "append mode keeps pre-existing content" also for appenders built from a document
